@@ -353,8 +353,7 @@ func (self *Core) runInstruction(instruction compiler.Instruction) *value.VmInte
 
 		switch l.Kind() {
 		case value.IntValueKind:
-			res := math.Pow(float64(l.(value.ValueInt).Inner), float64(r.(value.ValueInt).Inner))
-			self.push(value.NewValueInt(int64(res)))
+			self.push(value.NewValueInt(value.IntPow(l.(value.ValueInt).Inner, r.(value.ValueInt).Inner)))
 		case value.FloatValueKind:
 			self.push(value.NewValueFloat(math.Pow(l.(value.ValueFloat).Inner, r.(value.ValueFloat).Inner)))
 		default:
